@@ -11,7 +11,7 @@ From V.proofs Require Import Untrusted_Proofs.
    announcements, the request window, the sync flags and the outgoing requests.  In particular
    untrusted traffic cannot stall syncing. *)
 Theorem C12_chain_noninterference :
-  forall (MAXR LIM HT HDT BT DELTA : Z) (parents : list (Z * Z)) (start : Z) (ops : Sync.op list),
+  forall (MAXR LIM HT HDT BT DELTA : Z) (parents : list (Z * Z)) (start : Z) (ops : list Sync.op),
     trusted_part ops (Sync.run MAXR LIM HT HDT BT DELTA parents start ops) =
     Sync.run MAXR LIM HT HDT BT DELTA parents start (filter (fun o => is_untrusted_op o = false) ops).
 Proof. exact chain_noninterference. Qed.
@@ -42,7 +42,7 @@ Print Assumptions C12_unverified_dropped.
    before the node is in sync (131); confirmations only come from ProcessBlock steps, which only the
    trusted request window feeds (C12_chain_noninterference). *)
 Theorem C12_no_vouching :
-  forall (delay : Z) (ops : TxFlow.op list),
+  forall (delay : Z) (ops : list TxFlow.op),
     flow_valid delay ops = true -> never_objects delay [122; 131] ops.
 Proof. exact no_vouching. Qed.
 Print Assumptions C12_no_vouching.
